@@ -16,9 +16,26 @@ class ExecMixin:
         if z3.is_true(c): return True
         if z3.is_false(c): return False
         s = z3.Solver(); s.set('timeout', self.branch_timeout)
-        s.add(*st.pc); s.add(c)
+        for f in st.pc:
+            if not z3.is_quantifier(f) and not self.has_quant(f): s.add(f)
+        s.add(c)
         r = s.check()
         return r != z3.unsat
+
+    def has_quant(self, f):
+        i = f.get_id()
+        c = self._hq.get(i)
+        if c is None:
+            c = False
+            stack = [f]; seen = set()
+            while stack:
+                x = stack.pop()
+                if x.get_id() in seen: continue
+                seen.add(x.get_id())
+                if z3.is_quantifier(x): c = True; break
+                stack.extend(x.children())
+            self._hq[i] = c
+        return c
 
     # ------------------------------------------------------------------ function / block execution
     def run_function(self, fn, args, st, k, kpanic, depth, bind=None, parent=None, contract=None):
@@ -103,6 +120,11 @@ class ExecMixin:
                         f2 = f0.fork()
                         if 'name' in ins and ins.get('type'):
                             f2.regs[ins['name']] = v
+                        if self.ghost_events(f2):
+                            sg = self.instr_sig(ins)
+                            nm_ = self.shortfn(sg[1])
+                            k_ = self.site_ord(f2.fn, bi, ni - 1, sg)
+                            self.run_ghost_event(f2, s2, 'after call %s#%d' % (nm_, k_), {'result': (v, ins.get('type'))} if v is not None else None)
                         self.run_block(f2, bi, pv, s2, ni)
                     self.do_call(fr, st, ins, site, cont, spawn=(op == 'Go'))
                     return
@@ -169,7 +191,15 @@ class ExecMixin:
             R[nm] = self.binop(st, fr, ins, ins['binop'], x, y, ins['type'], ins['x']['type'] if self.K(ins['x']['type']) != 'nil' else ins['y']['type'], site)
         elif op == 'Store':
             a = V(ins['addr']); v = V(ins['val'])
-            self.store(st, fr, a, v, ins['val']['type'], site)
+            gk = self.ghost_events(fr)
+            if gk:
+                fld = self.store_field(fr.fn, ins)
+                k = self.store_ord(fr.fn, bidx, i, fld)
+                self.run_ghost_event(fr, st, 'before store %s#%d' % (fld, k), {'value': (v, ins['val']['type'])})
+                self.store(st, fr, a, v, ins['val']['type'], site)
+                self.run_ghost_event(fr, st, 'after store %s#%d' % (fld, k), {'value': (v, ins['val']['type'])})
+            else:
+                self.store(st, fr, a, v, ins['val']['type'], site)
         elif op == 'Alloc':
             R[nm] = self.alloc(st, ins['elem'])
         elif op == 'IndexAddr':
@@ -385,6 +415,98 @@ class ExecMixin:
         st.assume(ok)
         return res
 
+    # ------------------------------------------------------------------ ghost code
+    def ghost_events(self, fr):
+        c = self.contract_for(fr.fn)
+        return c.ghost if c is not None and c.ghost else None
+
+    def store_field(self, fn, ins):
+        a = ins['addr']
+        if a['k'] == 'reg':
+            d = self.defs(fn).get(a['name'])
+            if d and d[2]['op'] == 'FieldAddr': return d[2]['field']
+            if d and d[2]['op'] == 'IndexAddr': return 'elem'
+        return 'cell'
+
+    def store_ord(self, fn, bidx, i, fld):
+        key = (fn.name, 'storeord', fld)
+        if key not in self._ordcache:
+            lst = []
+            for b in fn.blocks:
+                for j, x in enumerate(b['instrs']):
+                    if x['op'] == 'Store' and self.store_field(fn, x) == fld: lst.append((b['index'], j))
+            self._ordcache[key] = lst
+        return self._ordcache[key].index((bidx, i)) + 1
+
+    def run_ghost_event(self, fr, st, event, extra=None):
+        c = self.contract_for(fr.fn)
+        if c is None: return
+        for ev, stmts, txt in c.ghost:
+            if ev == event:
+                env = self.mkenv(fr, st, extra)
+                self.run_ghost(stmts, env, fr, st, txt)
+
+    def is_ghost_key(self, key):
+        if key.startswith('ghost:'): return True
+        for g in self.c.ghostfields:
+            tn, gf = g.rsplit('.', 1)
+            if key.endswith('.' + gf) and (key[:-len(gf) - 1] == tn or key[:-len(gf) - 1].endswith('.' + tn)): return True
+        return False
+
+    def run_ghost(self, stmts, env, fr, st, txt=''):
+        for s in stmts:
+            k = s[0]
+            if k == 'assign':
+                lv = self.ev_lval(s[1], env)
+                v, t = self.ev(s[2], env)
+                if len(lv) != 1: raise Unsupported('ghost assignment to composite location in %r' % txt)
+                key, idx, srt = lv[0]
+                if not self.is_ghost_key(key): raise Unsupported('ghost code may only assign ghost state (%s) in %r' % (key, txt))
+                if isinstance(v, SliceV): v = v.arr
+                if z3.is_expr(v) and v.sort() != srt:
+                    if srt == R and v.sort() == I: v = z3.ToReal(v)
+                st.wr(key, idx, v, srt)
+            elif k == 'forall':
+                _, vn, tn, lhs, rhs = s
+                qv = Int('g!' + vn)
+                t = self.resolve_type(tn) if tn not in ('int',) else 'int'
+                e2 = dict(env); e2['vars'] = dict(env['vars']); e2['vars'][vn] = (qv, t)
+                lv = self.ev_lval(lhs, e2)
+                if len(lv) != 1: raise Unsupported('ghost forall assignment to composite location')
+                key, idx, srt = lv[0]
+                if not self.is_ghost_key(key): raise Unsupported('ghost code may only assign ghost state (%s)' % key)
+                if len(idx) != 1 or not idx[0].eq(qv): raise Unsupported('ghost forall must assign m.f of the bound variable')
+                v, _ = self.ev(rhs, e2)
+                if z3.is_expr(v) and v.sort() != srt and srt == R: v = z3.ToReal(v)
+                st.arr(key, 1, srt)
+                st.heap[key] = z3.Lambda([qv], v)
+                st.writes.append((key, None))
+            elif k == 'assert':
+                self.oblige(st, fr, 'ghost.assert', '', self.ev_bool(s[1], env), None, text=s[2])
+                st.assume(self.ev_bool(s[1], env))
+            elif k == 'assume':
+                self.assumptions.add('%s: ghost assume %s' % (self.cur, s[2]))
+                st.assume(self.ev_bool(s[1], env))
+            elif k == 'if':
+                c = self.ev_bool(s[1], env)
+                # ghost conditionals are executed as guarded updates: fork-free by evaluating on a copy and merging is
+                # not supported; instead require the condition to be decided on this path
+                if self.feasible(st, c) and not self.feasible(st, Not(c)):
+                    self.run_ghost(s[2], env, fr, st, txt)
+                elif self.feasible(st, c):
+                    raise Unsupported('ghost if with undecided condition in %r' % txt)
+            elif k == 'call':
+                call = s[1]
+                name = call[1][1]
+                if name not in self.c.ghostprocs: raise Unsupported('unknown ghost proc %s' % name)
+                ps, body = self.c.ghostprocs[name]
+                vars = {}
+                for (pn, pt), a in zip(ps, call[2]):
+                    v, t = self.ev(a, env)
+                    vars[pn] = (v, t if t not in (None, 'nil') else self.try_resolve(pt))
+                e2 = {'st': st, 'old': env['old'], 'vars': vars, 'fr': None}
+                self.run_ghost(body, e2, fr, st, txt)
+
     # ------------------------------------------------------------------ panics and defers
     def do_panic(self, fr, st, site, explicit=False, what='panic'):
         if explicit:
@@ -444,9 +566,13 @@ class ExecMixin:
             vals[x['name']] = self.val(x['edges'][b['preds'].index(prev)], fr, st)
         env = self.loop_env(fr, st, phis, vals)
         tag = 'keep' if back and fr.inloop.get(h) else 'init'
+        import cparse as _cp
         for n, (txt, ast) in enumerate(spec['invariant']):
-            g = self.ev_bool(ast, env)
-            self.oblige(st, fr, 'inv.%s' % tag, 'loop%d.%d' % (lp['ordinal'], n + 1), g, None, text=txt)
+            parts = self.split_conj(ast)
+            for j, a in enumerate(parts):
+                g = self.ev_bool(a, env)
+                nm = '%d' % (n + 1) if len(parts) == 1 else '%d.%d' % (n + 1, j + 1)
+                self.oblige(st, fr, 'inv.%s' % tag, 'loop%d.%s' % (lp['ordinal'], nm), g, None, text=_cp.show(a) if len(parts) > 1 else txt)
         if tag == 'keep':
             if spec.get('decreases'):
                 m_new = self.ev(spec['decreases'][1], env)[0]
@@ -457,7 +583,7 @@ class ExecMixin:
         # first arrival: cut. havoc what the loop may modify, assume the invariant.
         mods = self.loop_mods(fn, lp, spec)
         for key in mods:
-            if key in st.sorts: st.havoc(key)
+            if key in st.sorts: st.havoc(key, log=False)
         st.bump_alloc()
         for x in phis:
             v = self.fresh(st, x['type'], 'loop.' + (x.get('comment') or x['name']))
